@@ -314,6 +314,10 @@ func runGeoJSONTypes(c *Ctx) []Obligation {
 //   #codec  — for each type whose MarshalJSON marshals a []float64{x.A, x.B} literal and whose
 //             UnmarshalJSON stores x.F = s[i]: the field stored from index i is the field written
 //             at index i, and the length test of the decoder equals the literal's length.
+//   #accepts — the same decoder returns an error only for the shape of its input: no branch that
+//             returns an error is conditioned on an ordered comparison of a decoded (non-constant)
+//             floating point number, because the encoder writes any finite number (the property's
+//             domain) and has no such test.
 //   #call   — at every call (packages geojson and ingest carry C32, other packages are
 //             informational) of a function with consecutive float64 parameters named lat… and
 //             lng…/lon…, an argument whose own name (last identifier or field) says "lat" is not
@@ -323,7 +327,7 @@ func init() {
 		Name:  "LATLNG-ORDER",
 		IR:    "ast",
 		Props: []string{"C32"},
-		Floor: 4,
+		Floor: 5,
 		Doc: "the position codec writes and reads its two fields at the same indices, and no call passes a value named for the latitude as a longitude parameter or vice versa " +
 			"(instances: the codec pair of geojson.Coordinate and every call in geojson/ingest whose arguments are named lat…/lng…)",
 		Run: runLatLngOrder,
@@ -371,6 +375,8 @@ func runLatLngOrder(c *Ctx) []Obligation {
 			read    map[int]string
 			lenTest int64
 			pos     token.Pos
+			rejects []string // value-dependent rejections in the decoder
+			decPos  token.Pos
 		}
 		codecs := map[string]*codec{}
 		get := func(t types.Type) *codec {
@@ -426,8 +432,41 @@ func runLatLngOrder(c *Ctx) []Obligation {
 					return true
 				})
 			case "UnmarshalJSON":
+				if cd := get(recv.Type()); cd != nil {
+					cd.decPos = fd.Pos()
+				}
 				ast.Inspect(fd.Body, func(n ast.Node) bool {
 					switch x := n.(type) {
+					case *ast.IfStmt:
+						// a branch that returns an error under a comparison of a decoded number
+						returnsErr := false
+						for _, st := range x.Body.List {
+							if r, ok := st.(*ast.ReturnStmt); ok && len(r.Results) > 0 {
+								if id, ok := ast.Unparen(r.Results[len(r.Results)-1]).(*ast.Ident); !ok || id.Name != "nil" {
+									returnsErr = true
+								}
+							}
+						}
+						if returnsErr {
+							ast.Inspect(x.Cond, func(m ast.Node) bool {
+								be, ok := m.(*ast.BinaryExpr)
+								if !ok {
+									return true
+								}
+								switch be.Op {
+								case token.LSS, token.LEQ, token.GTR, token.GEQ:
+									for _, side := range []ast.Expr{be.X, be.Y} {
+										if b, ok := info.TypeOf(side).Underlying().(*types.Basic); ok && b.Info()&types.IsFloat != 0 && info.Types[side].Value == nil {
+											if cd := get(recv.Type()); cd != nil {
+												cd.rejects = append(cd.rejects, fmt.Sprintf("%s at %s", nodeText(c.Fset, be), c.Position(be.Pos())))
+											}
+											return true
+										}
+									}
+								}
+								return true
+							})
+						}
 					case *ast.AssignStmt:
 						if len(x.Lhs) != len(x.Rhs) {
 							return true
@@ -482,6 +521,13 @@ func runLatLngOrder(c *Ctx) []Obligation {
 				ob.Detail = fmt.Sprintf("%s: MarshalJSON writes %v and UnmarshalJSON reads the same fields from the same indices", name, cd.written)
 			}
 			out = append(out, ob)
+			acc := Obligation{Key: "geojson." + name + "#accepts", Pos: c.Position(cd.decPos), Status: OK,
+				Detail: name + ": UnmarshalJSON rejects input only for its shape (decode error, wrong number of elements), never for the value of a number, so it accepts everything MarshalJSON writes"}
+			if len(cd.rejects) > 0 {
+				acc.Status = Violation
+				acc.Detail = fmt.Sprintf("%s: UnmarshalJSON rejects positions by value (%s) while MarshalJSON writes any finite number: a position this package writes is refused when it is read back", name, strings.Join(cd.rejects, "; "))
+			}
+			out = append(out, acc)
 		}
 	}
 	// #call
